@@ -59,6 +59,8 @@ ReqTimeShape(o)      == /\ o.z /\ o.digits
                         /\ o.len = (IF o.tag = TagUtcTime THEN 13 ELSE 15)
                         /\ o.tag \in {TagUtcTime, TagGeneralizedTime}
 ReqTimeGeneralized(o) == o.tag = TagGeneralizedTime
+(* the form RFC 5280 prescribes, read off the encoded value alone: GeneralizedTime only for years UTCTime cannot express *)
+ReqTimeFormOfEncoded(o) == o.tag = Form(ObsYear(o))
 
 (* --- implementation-shaped rule (lib.rs write_dt_utc_or_generalized, repaired form):        *)
 (*     convert to UTC, strip sub-second part, choose the form from the UTC year.             *)
